@@ -880,6 +880,9 @@ func (rn *runner) runProg(p *Prog, ck *checked, results map[int]*gmResult, r *vh
 				continue
 			}
 			for _, name := range qn {
+				if p.Hier.Shape == "deep" && k > 2 && !r.Chance(1, 6) {
+					continue // towers: every name on the three top types (deepest paths), a sample elsewhere
+				}
 				rn.observe(ir, p, ck.pkg, k, name, nt, &ops, true)
 			}
 		}
@@ -959,9 +962,32 @@ func main() {
 		"(nil, default anywhere, several types per case); avoided classes: documented limitations (interface-to-interface assertions, recursive types converted to compiled interfaces), "+
 		"invalid programs that gomacro accepts (pointer method on non-addressable value, T.m with pointer-receiver m: observation only), known findings "+
 		"(named types of identical struct layout: every struct has a unique tag field; (*T).m with value-receiver m). "+
+		"part 2: towers = 6..9 backbone structs each embedding the next (by value or pointer) next to 1..3 sibling structs (a third of them with an embedded child), names from the same small pools, values built completely: "+
+		"lookups of every name on the three top types (paths up to 9 levels) and a sample elsewhere, selector sites on names found >= 4 levels deep, assignment through a promoted field read back through the explicit path (selset, all hierarchies); "+
+		"part 3: twin types = 2..3 named types per kind (struct with value or pointer receivers, slice, map, func, chan, array, int16, string) sharing one underlying type and all implementing Sh/error/fmt.Stringer: "+
+		"comma-ok and single-value assertions, classification through an interface parameter and type switches between twins (same reflect.Type, different identity), nil values included, tags Sh (interpreted), error, fmt.Stringer; "+
+		"classes gated on known_findings.json (generated once registered as fixed): comma-ok between basic-kind twins, basic-kind argument to an interface parameter. "+
 		"One evaluation = one site (compile + run, compared with go/types accept/reject and the compiled-Go output) or one (type,name) lookup triple compared with go/types.LookupFieldOrMethod; "+
 		"non-trivial = the name is found at depth >= 1 or is ambiguous, or the site is an interface/assertion/switch site; distinct by SHA-256 of hierarchy+site")
 	rn := &runner{rep: rep, seed: a.Seed}
+	// status of the C09 entries of known_findings.json (gates the pending corpus programs and the classes of twinOpts)
+	status := map[string]string{}
+	if dir := os.Getenv("VERIF_DIR"); dir != "" {
+		if b, err := os.ReadFile(filepath.Join(dir, "known_findings.json")); err == nil {
+			var kf struct {
+				Findings []struct{ Property, Status, Key string } `json:"findings"`
+			}
+			if json.Unmarshal(b, &kf) == nil {
+				for _, f := range kf.Findings {
+					if f.Property == "C09" {
+						status[f.Key] = f.Status
+					}
+				}
+			}
+		}
+	}
+	topts := twinOpts{BasicCommaOk: status["corpus:commaok-assert-basic-kind-twins"] == "fixed", BasicIfaceArg: status["corpus:basic-kind-arg-to-interface-param"] == "fixed"}
+	rep.Extra["twin_classes_enabled"] = fmt.Sprintf("%+v", topts)
 
 	var progs []*Prog
 	// part 0: corpus
@@ -1066,7 +1092,7 @@ func main() {
 		checks = append(checks, nil)
 	}
 	for i := 0; i < nTwin; i++ {
-		p := genTwinProg(rng.Fork(), fmt.Sprintf("t%04d", i))
+		p := genTwinProg(rng.Fork(), fmt.Sprintf("t%04d", i), topts)
 		ck := typecheck(p, false)
 		if len(ck.declErrs) > 0 {
 			fmt.Fprintf(os.Stderr, "generator bug: declarations of %s do not type-check: %v\n%s\n", p.Name, ck.declErrs, p.goSource("h", map[int]bool{}))
@@ -1131,24 +1157,31 @@ func main() {
 			}
 			goOK := accepted[p.Name][s.ID]
 			in := map[string]interface{}{"prog": p.Name, "types": p.Types, "decls": p.Decls, "late": p.Late, "vars": p.Vars, "site": s}
+			siteFail := func(f vh.Failure) {
+				if p.Pending && status[f.Key] == "" {
+					rep.Extra["proposed_finding_reproduced:"+f.Key] = true
+					return
+				}
+				rep.Fail(f)
+			}
 			rep.Dist("site:" + s.Kind)
 			nontriv := s.Kind != "selv" && s.Kind != "selp" || strings.Contains(s.Desc, "ambiguous") || (p.Hier != nil && p.Hier.Shape == "deep")
 			rep.Count(string(hb)+s.Desc+s.Body, nontriv)
 			switch {
 			case goOK && !res.compiled:
-				rep.Fail(vh.Failure{Key: rn.key(p, s), What: "gomacro rejects a site that go/types accepts", Input: in, Got: res.err, Want: oracle[p.Name][s.ID]})
+				siteFail(vh.Failure{Key: rn.key(p, s), What: "gomacro rejects a site that go/types accepts", Input: in, Got: res.err, Want: oracle[p.Name][s.ID]})
 				rep.Dist("outcome:go-accept/gomacro-reject")
 			case !goOK && res.compiled:
-				rep.Fail(vh.Failure{Key: rn.key(p, s), What: "gomacro accepts a site that go/types rejects", Input: in, Got: res.out, Want: ck.siteErrs[s.ID]})
+				siteFail(vh.Failure{Key: rn.key(p, s), What: "gomacro accepts a site that go/types rejects", Input: in, Got: res.out, Want: ck.siteErrs[s.ID]})
 				rep.Dist("outcome:go-reject/gomacro-accept")
 			case !goOK:
 				rep.Dist("outcome:both-reject")
 			default:
 				want, have := oracle[p.Name][s.ID]
 				if !have {
-					rep.Fail(vh.Failure{Key: rn.key(p, s), What: "no oracle output", Input: in})
+					siteFail(vh.Failure{Key: rn.key(p, s), What: "no oracle output", Input: in})
 				} else if want != res.out {
-					rep.Fail(vh.Failure{Key: rn.key(p, s), What: "output differs from compiled Go", Input: in, Got: res.out + " " + res.err, Want: want})
+					siteFail(vh.Failure{Key: rn.key(p, s), What: "output differs from compiled Go", Input: in, Got: res.out + " " + res.err, Want: want})
 					rep.Dist("outcome:differ")
 				} else if want == "panic" {
 					rep.Dist("outcome:both-panic")
